@@ -360,6 +360,23 @@ func (c *effCtx) ofCall(fn *ssa.Function, ci ssa.CallInstruction) *Effects {
 		}
 		return e
 	case *ssa.Function:
+		if cal.Pkg == nil || !strings.HasPrefix(cal.Pkg.Pkg.Path(), ModulePath) {
+			if fc := c.P.Contracts.Funcs[externKey(cal)]; fc != nil {
+				// an interface-typed parameter that receives a boxed pointer: use the pointer's type
+				pt := fnTypes(cal)
+				off := 0
+				if cal.Signature.Recv() != nil {
+					off = 1
+				}
+				for i, a := range com.Args {
+					if mi, ok := a.(*ssa.MakeInterface); ok && i+off < len(pt) {
+						_ = off
+						pt[i] = mi.X.Type()
+					}
+				}
+				return c.ofContract(fc, externKey(cal), pt...)
+			}
+		}
 		return c.ofFunc(cal)
 	case *ssa.MakeClosure:
 		return c.ofFunc(cal.Fn.(*ssa.Function))
